@@ -62,7 +62,7 @@ theorem discard_resets (c : Ctx) (s : State) (conn : Nat) (argv : List Bytes) (q
 theorem exec_resets (c : Ctx) (s : State) (conn : Nat) (argv : List Bytes) (q : List Queued)
     (hq : (s.session conn).queue = some q)
     (hab : c.q.abortedExecStaysMulti = false)
-    (hnc : (execQueue c conn q s [] [] []).2.2.2.2 = none) :   -- no queued handler panics (C13)
+    (hnc : (execQueue c conn q (implElems c) s [] [] []).2.2.2.2 = none) :   -- no queued handler panics (C13)
     let o := dispatchParsed c s conn argv .exec
     (o.st.session conn).queue = none ∧ (o.st.session conn).watches = [] := by
   simp only [dispatchParsed, hq, Cmd.isControl, Bool.not_true, Bool.false_eq_true, ↓reduceIte, hab, hnc]
@@ -102,14 +102,14 @@ theorem unknown_command_flags_queue (c : Ctx) (s : State) (conn : Nat) (q : List
 /-- EXEC answers one reply per queued command, in queue order (no reply is dropped or added),
     unless a handler panics -/
 theorem execQueue_length (conn : Nat) (q : List Queued) :
-    ∀ (c : Ctx) (s : State) (vs : List Value) (hs : List Match) (ps : List (Nat × Bytes × Nat)),
+    ∀ (c : Ctx) (impls : List Value) (s : State) (vs : List Value) (hs : List Match) (ps : List (Nat × Bytes × Nat)),
       (∀ x ∈ q, x.argv ≠ []) →
-      (execQueue c conn q s vs hs ps).2.2.2.2 = none →
-      (execQueue c conn q s vs hs ps).2.1.length = vs.length + q.length := by
+      (execQueue c conn q impls s vs hs ps).2.2.2.2 = none →
+      (execQueue c conn q impls s vs hs ps).2.1.length = vs.length + q.length := by
   induction q with
-  | nil => intro c s vs hs ps _ _; simp [execQueue]
+  | nil => intro c impls s vs hs ps _ _; simp [execQueue]
   | cons x r ih =>
-    intro c s vs hs ps hne hnc
+    intro c impls s vs hs ps hne hnc
     have hx : x.argv ≠ [] := hne x (by simp)
     cases ha : x.argv with
     | nil => exact absurd ha hx
@@ -119,15 +119,15 @@ theorem execQueue_length (conn : Nat) (q : List Queued) :
       cases hp : parseCmd name args with
       | none =>
         simp only [hp] at hnc ⊢
-        rw [ih _ _ _ _ _ (fun y hy => hne y (by simp [hy])) hnc]
+        rw [ih _ _ _ _ _ _ (fun y hy => hne y (by simp [hy])) hnc]
         simp only [List.length_cons]; omega
       | some cmd =>
         simp only [hp] at hnc ⊢
-        cases hcr : (runCmd { c with now := c.now + 1000 } s conn x.dbRef true cmd).crash with
+        cases hcr : (runCmd { c with now := c.now + 1000, impl := impls.head? } s conn x.dbRef true cmd).crash with
         | some site => simp [hcr] at hnc
         | none =>
           simp only [hcr] at hnc ⊢
-          rw [ih _ _ _ _ _ (fun y hy => hne y (by simp [hy])) hnc]
+          rw [ih _ _ _ _ _ _ (fun y hy => hne y (by simp [hy])) hnc]
           simp only [List.length_cons]; omega
 
 end RedisEmu
